@@ -189,8 +189,16 @@ def run_case(case):
     wrapped = False
     batches_checked = 0
 
+    # the very first transition may carry whole numbers handed over as integers
+    # (a sparse reward of 0, an observation built from an integer array); the
+    # documented storage dtype does not depend on it
+    int_first = case["seed"] % 3 == 0
+
     def expected(i, f):
-        return field_value(i, f, sch["shapes"][f], dtypes[f])
+        v = field_value(i, f, sch["shapes"][f], dtypes[f])
+        if int_first and i == 1 and np.dtype(dtypes[f]).kind == "f":
+            v = np.floor(v)
+        return v
 
     def check_live(where):
         # length and content of every task buffer
@@ -301,6 +309,24 @@ def run_case(case):
             # hand over python scalars for 0-d fields, like the training loops do
             sample = {k: (v.item() if v.shape == () and rng.random() < 0.5 else v)
                       for k, v in sample.items()}
+            if int_first and i == 1:
+                sample = {k: (np.asarray(v).astype(np.int64) if np.asarray(v).dtype.kind
+                              == "f" else v) for k, v in sample.items()}
+                sample = {k: (int(v) if np.asarray(v).shape == () and
+                              np.asarray(v).dtype.kind == "i" and
+                              not isinstance(v, (bool, np.bool_)) else v)
+                          for k, v in sample.items()}
+                res.see("integer_typed_first_transition")
+            if rng.random() < 0.03:
+                # the buffer object may be replaced by a deep copy at any time
+                import copy
+                ok, cp = guarded(res, "C02/raises/deepcopy", copy.deepcopy, buf)
+                if not ok:
+                    return res
+                buf = cp
+                if multi:
+                    pass
+                res.see("deep_copies")
             if rng.random() < 0.3:
                 # keyword arguments have no order: hand them over shuffled
                 ks = list(sample)
